@@ -152,5 +152,56 @@ theorem trigGet_min {s : PrioReq} (h : Inv s) {t : Tok} {q : List Tok}
   have := h.getS; rw [hq] at this
   exact fun w hw => (List.pairwise_cons.mp this).1 w hw
 
+
+/-! ### finitely many events per instant -/
+
+def measure (s : PrioReq) : Nat := s.pending.length + s.putQ.length + s.getQ.length
+
+theorem trigPut_measure (s : PrioReq) : measure s.trigPut = measure s := by
+  unfold trigPut measure
+  split
+  · rfl
+  · rename_i t x q hq
+    split
+    · simp [hq]; omega
+    · rfl
+
+theorem trigGet_measure (s : PrioReq) : measure s.trigGet = measure s := by
+  unfold trigGet measure
+  split
+  · rfl
+  · rename_i t q hq
+    split
+    · rfl
+    · simp [hq]; omega
+
+theorem kstep_measure (s : PrioReq) (h : s.pending ≠ []) : measure s.kstep + 1 = measure s := by
+  unfold kstep
+  split
+  · rename_i hp; exact absurd hp h
+  · rename_i isPut id rest hp
+    simp only
+    split
+    · rw [trigGet_measure]; simp [measure, hp]; omega
+    · rw [trigPut_measure]; simp [measure, hp]; omega
+
+theorem settleAux_quiescent (n : Nat) (s : PrioReq) (h : measure s < n) : (settleAux n s).pending = [] := by
+  induction n generalizing s with
+  | zero => omega
+  | succ n ih =>
+    unfold settleAux
+    split
+    · rename_i he; simpa using he
+    · rename_i hne
+      have hp : s.pending ≠ [] := by simpa using hne
+      have := kstep_measure s hp
+      exact ih s.kstep (by omega)
+
+/-- `settle` reaches a state in which no request event is pending: only finitely many kernel events
+    happen in one instant -/
+theorem settle_quiescent (s : PrioReq) : s.settle.pending = [] := by
+  unfold settle
+  exact settleAux_quiescent _ s (by unfold measure; omega)
+
 end PrioReq
 end FsVerif
